@@ -216,11 +216,10 @@ func (e *Executor) parseQuery(
 
 	doc, err := parser.ParseQueryWithTokenLimit(&ast.Source{Input: query}, e.parserTokenLimit)
 	if err != nil {
-		gqlErr, ok := err.(*gqlerror.Error)
-		if ok {
-			errcode.Set(gqlErr, errcode.ParseFailed)
-			return nil, gqlerror.List{gqlErr}
-		}
+		// the parser reports an exceeded token limit as a plain error
+		gqlErr := gqlerror.WrapIfUnwrapped(err)
+		errcode.Set(gqlErr, errcode.ParseFailed)
+		return nil, gqlerror.List{gqlErr}
 	}
 	stats.Parsing.End = graphql.Now()
 
